@@ -348,16 +348,20 @@ func (t *teletextReader) Read(p []byte) (n int, err error) {
 		}
 	}
 
-	// Fill the rest
-	var m int
-	m, err = io.ReadFull(t.r, p[n:])
-	if t.keep {
-		t.buf = append(t.buf, p[n:n+m]...)
-		t.pos = len(t.buf)
-	} else if m > 0 {
-		t.buf, t.pos = nil, -1
+	// Fill the rest. Only the end of the input is held back until the next read: any other error of the underlying
+	// reader is returned as it is, io.ErrUnexpectedEOF included
+	for n < len(p) && err == nil {
+		var m int
+		m, err = t.r.Read(p[n:])
+		if t.keep {
+			t.buf = append(t.buf, p[n:n+m]...)
+			t.pos = len(t.buf)
+		} else if m > 0 {
+			t.buf, t.pos = nil, -1
+		}
+		n += m
 	}
-	if n += m; err == io.ErrUnexpectedEOF || (err == io.EOF && n > 0) {
+	if err == io.EOF && n > 0 {
 		err = nil
 	}
 	return
